@@ -1,14 +1,38 @@
-"""Rule registry and the property -> rules map (DESIGN.md §3/§4)."""
-from . import wf
+"""Rule registry and the property -> rules map (DESIGN.md §3/§4).
+
+PROPS[pid]["rules"] = [(rule id, floor of decided instances, selector over instances or None)].
+Floors are the numbers counted on the tree the rules were written against: a rule that suddenly
+matches fewer sites is a broken check (exit 2), never a silent pass.
+"""
+from . import wf, dp, dt, he, gl, ts, ee, sl, wp
+
+
+def has(*subs):
+    return lambda r: any(s in r["key"] for s in subs)
+
+
+def hasnot(*subs):
+    return lambda r: not any(s in r["key"] for s in subs)
+
 
 RULES = {
     "WF": {"run": wf.run, "needs": ["ffi"]},
+    "DP": {"run": dp.run},
+    "DT": {"run": dt.run},
+    "HE": {"run": he.run},
+    "GL": {"run": gl.run},
+    "TS": {"run": ts.run},
+    "EE": {"run": ee.run},
+    "SL": {"run": sl.run, "needs": ["ffi", "cli"]},
+    "WP": {"run": wp.run},
 }
+
+TB = ["rustc nightly front end + MIR construction", "rsdd-sa fact dump", "frozen rule tables"]
 
 PROPS = {
     "C18": {
         "level": "proof",
-        "rules": [("WF", 66)],
+        "rules": [("WF", 66, None)],
         "explanation": "Wrapper faithfulness of all 65 #[no_mangle] extern \"C\" exports: the value each wrapper "
                        "returns (or the one effect call it makes), reconstructed from its MIR as a term over its "
                        "parameters with marshalling stripped, equals the native operation and argument "
